@@ -6,6 +6,7 @@ package main
 
 import (
 	"encoding/hex"
+	"strconv"
 	"strings"
 
 	"github.com/jig/lisp/reader"
@@ -67,10 +68,11 @@ func genWF(r *rng, depth int, out *[]cutTok) {
 }
 
 // wfState is the independent grammar checker: it consumes tokens and answers
-//   "complete"            exactly one expression
-//   "incomplete:<closer>" a proper prefix that closing brackets alone can complete (innermost closer)
-//   "dangling"            a prefix that closing brackets alone cannot complete (pending reader macro, odd map)
-//   "surplus" / "two"     malformed: unmatched closer / more than one expression
+//
+//	"complete"            exactly one expression
+//	"incomplete:<closer>" a proper prefix that closing brackets alone can complete (innermost closer)
+//	"dangling"            a prefix that closing brackets alone cannot complete (pending reader macro, odd map)
+//	"surplus" / "two"     malformed: unmatched closer / more than one expression
 type frame struct {
 	closer  string
 	isSet   bool
@@ -298,4 +300,48 @@ func (e *cutEngine) run(payload string) string {
 func (e *cutEngine) classify(payload, obs string) string {
 	parts := strings.Split(payload, " | ")
 	return strings.SplitN(parts[len(parts)-1], ":", 2)[0] + "→" + strings.SplitN(strings.Join(strings.Fields(obs + " ? ?")[:2], " "), ":", 2)[0]
+}
+
+// engine "cutbig" (C16): the same oracle on BIG texts — a first expression of exactly N tokens around every power of two,
+// incomplete texts of tens of kilobytes with each kind of bracket innermost.  Harness-side oracle only (the independent
+// grammar checker): the reader model is exact but slow on 70 KiB texts, and what is at stake here is a size threshold
+// in the CODE.
+type cutBigEngine struct{ cutEngine }
+
+func init() { register("cutbig", &cutBigEngine{}) }
+
+func (e *cutBigEngine) leanName() string { return "nomodel" }
+
+func (e *cutBigEngine) generate(r *rng, n int, tier string, emit func(string)) {
+	emitToks := func(toks []cutTok) {
+		emit("e0,p0 x" + hex.EncodeToString([]byte(renderToks(r, toks))) + " | " + wfCheck(toks))
+	}
+	// BIG texts: a first expression of exactly N tokens (around every power of two a chunked tokenizer or a buffer might
+	// use) followed by a surplus closer / a second expression / nothing
+	for _, N := range []int{255, 256, 257, 1023, 1024, 1025, 4095, 4096, 4097, 8191, 8192, 8193, 12288, 16384, 16385} {
+		toks := []cutTok{{"(", "open:)"}, {"do", "atom"}}
+		for len(toks) < N-1 {
+			toks = append(toks, cutTok{"1", "atom"})
+		}
+		toks = append(toks, cutTok{")", "close"})
+		emitToks(toks)
+		for _, tail := range [][]cutTok{{{")", "close"}}, {{"]", "close"}}, {{"42", "atom"}}, {{"(", "open:)"}, {"x", "atom"}, {")", "close"}}, {{"(", "open:)"}, {"x", "atom"}}} {
+			emitToks(append(append([]cutTok{}, toks...), tail...))
+		}
+	}
+	// BIG incomplete texts (tens of kilobytes): the innermost open bracket is what the error names, whatever its kind
+	for _, members := range []int{5000, 11000} {
+		for _, inner := range []cutTok{{"#{", "set:}"}, {"[", "open:]"}, {"(", "open:)"}, {"{", "open:}"}} {
+			for _, outer := range [][]cutTok{{}, {{"(", "open:)"}, {"def", "atom"}, {"allowed", "atom"}}, {{"[", "open:]"}, {":admins", "key"}}, {{"(", "open:)"}, {"f", "atom"}, {"{", "open:}"}, {":k", "key"}}} {
+				toks := append(append([]cutTok{}, outer...), inner)
+				for i := 0; i < members; i++ {
+					toks = append(toks, cutTok{":m" + strconv.Itoa(i), "key"})
+					if inner.text == "{" {
+						toks = append(toks, cutTok{strconv.Itoa(i), "atom"})
+					}
+				}
+				emitToks(toks)
+			}
+		}
+	}
 }
